@@ -552,9 +552,10 @@ func (s *Suite) Main() {
 		if !st.Exhaustive {
 			exhaustive = false
 		}
-		if herr != "" {
+		if herr != "" && harnessErr == "" {
+			// remembered; the remaining scenarios still run (a confirmed violation found by one of them is a
+			// verdict in its own right, the harness error is reported next to it)
 			harnessErr = herr
-			break
 		}
 	}
 
@@ -640,7 +641,9 @@ func (s *Suite) Main() {
 		s.Property, tier, tot.Executions, tot.States, max(tot.Transitions, tot.Points), len(outcomes), tot.Nontrivial, exhaustive, len(viols), len(keys), time.Since(start).Seconds())
 	if harnessErr != "" {
 		fmt.Printf("HARNESS-ERROR property=%s %s\n", s.Property, harnessErr)
-		os.Exit(2)
+		if len(viols) == 0 {
+			os.Exit(2)
+		}
 	}
 	if len(viols) > 0 {
 		os.Exit(1)
